@@ -22,6 +22,10 @@ def run(rep):
     explore.explore(rep, 'order-d1', sel(topo.c02_order_family(rep.tier, n)), 1, bases, 'checks.oracles:oracle_c02', budget_s=900)
     explore.explore(rep, 'restart-d0', sel(topo.c02_restart_family(rep.tier)), 0, bases[:1] if quick else ['fifo', 'desc'],
                     'checks.oracles:oracle_c02', budget_s=900)
+    # publishers that leave cleanly (CLOSE) next to slower siblings, in a balanced stage (where frames legitimately overtake each other)
+    exits = [sc for sc in topo.c07_family(rep.tier, 5) if sc['name'].startswith('bal2-exit')]
+    explore.explore(rep, 'exit-d1', sel(exits), 1, bases[:1], 'checks.oracles:oracle_c02_order_only', budget_s=900)
+
     explore.explore(rep, 'content-d1', sel(topo.c02_content_family(rep.tier)), 1, bases[:1], 'checks.oracles:oracle_c02_content', budget_s=900)
 
     dup = [topo.timely(topo.scn('dup/join2', [topo.src(3, 's1', required='snk'), topo.src(3, 's2', required='snk'),
